@@ -82,6 +82,12 @@ func sliceParts(v string) (arr, off, ln, cp int64, ok bool) {
 // tryReplay concretises the solver model and runs the real function.
 func (r *propRun) tryReplay(u Unit, fo *FuncOutcome, res *OblResult) *ReplayResult {
 	o := res.O
+	if rr := r.manualReplay(res); rr != nil {
+		return rr
+	}
+	if !r.isRoot(u.Func) {
+		return nil
+	}
 	if o.Kind != "nopanic" && o.Kind != "variant" {
 		return nil
 	}
@@ -333,4 +339,47 @@ func ReplayCmd(args []string) int {
 	out, _ := RunOverlayTest("/repo", pkg, m.Replay.Test, "TestReplayVC")
 	fmt.Println(out)
 	return 0
+}
+
+func (r *propRun) isRoot(f string) bool {
+	if len(r.def.Roots) == 0 {
+		return true
+	}
+	for _, x := range r.def.Roots {
+		if x == f {
+			return true
+		}
+	}
+	return false
+}
+
+// manualReplay runs a hand-written in-package test stored under
+// /verif/spec/replays/<sanitised obligation id>.go, if there is one. The test
+// must print REPLAY-PANIC / REPLAY-VIOLATED when the real code misbehaves and
+// REPLAY-OK otherwise.
+func (r *propRun) manualReplay(res *OblResult) *ReplayResult {
+	o := res.O
+	p := filepath.Join(verifDir, "spec", "replays", smt.Sanitize(o.ID)+".go")
+	b, err := os.ReadFile(p)
+	if err != nil {
+		return nil
+	}
+	src := string(b)
+	out, rerr := RunOverlayTest(r.repo, o.PkgPath(), src, "TestReplayVC")
+	rr := &ReplayResult{Test: src, Output: truncate(out, 4000), Inputs: map[string]string{"manual_replay": p}}
+	switch {
+	case strings.Contains(out, "REPLAY-PANIC"), strings.Contains(out, "REPLAY-VIOLATED"):
+		rr.Reproduced = true
+		for _, ln := range strings.Split(out, "\n") {
+			if strings.Contains(ln, "REPLAY-PANIC") || strings.Contains(ln, "REPLAY-VIOLATED") {
+				rr.Outcome = strings.TrimSpace(ln)
+			}
+		}
+	case strings.Contains(out, "REPLAY-OK"):
+		rr.Outcome = "hand-written replay ran: real code behaves correctly on this input"
+	default:
+		rr.Outcome = "replay did not run: " + fmt.Sprint(rerr)
+	}
+	rr.Path = r.writeReplayFile(res, rr, "hand-written history replayed on the real code")
+	return rr
 }
